@@ -200,7 +200,7 @@ def oracle(case, obs):
             count += 1
         if len(ids) < count:
             return {"step": idx, "node_lost": {"have": ids, "created": count}}
-        if o["r"] in ("refused", "error") and prev is not None and st["do"] in ("add",):
+        if o["r"] == forest.RAISED and prev is not None and st["do"] in ("add",):
             if o["heap"] != prev:
                 return {"step": idx, "forbidden_operation_changed_the_forest": st}
         prev = o["heap"]
